@@ -374,13 +374,7 @@ impl LightClientProtocol {
                     #[cfg(nervosnetwork_ckb_light_client_verif)]
                     crate::verif_hooks::lock_event("commit_prove_state");
                     let mut matched_blocks = self.peers.matched_blocks().write().expect("poisoned");
-                    while let Some((start_number, _, _)) = self.storage.get_latest_matched_blocks()
-                    {
-                        if start_number > 0 {
-                            self.storage.remove_matched_blocks(start_number);
-                        }
-                    }
-                    self.storage.rollback_to_block_with_filtered_number(1, 0);
+                    self.storage.rollback_after_fork(0);
                     matched_blocks.clear();
                     None
                 } else {
@@ -457,22 +451,7 @@ impl LightClientProtocol {
                     #[cfg(nervosnetwork_ckb_light_client_verif)]
                     crate::verif_hooks::lock_event("commit_prove_state");
                     let mut matched_blocks = self.peers.matched_blocks().write().expect("poisoned");
-                    let mut start_number_opt = None;
-                    while let Some((start_number, _, _)) = self.storage.get_latest_matched_blocks()
-                    {
-                        if start_number > to_number {
-                            debug!("remove matched blocks start from: {}", start_number);
-                            self.storage.remove_matched_blocks(start_number);
-                        } else {
-                            start_number_opt = Some(start_number);
-                            break;
-                        }
-                    }
-                    let rollback_to = start_number_opt.unwrap_or(to_number) + 1;
-                    info!("rollback to block#{}", rollback_to);
-                    // the block `rollback_to` is removed: the scripts are filtered up to its parent
-                    self.storage
-                        .rollback_to_block_with_filtered_number(rollback_to, rollback_to - 1);
+                    self.storage.rollback_after_fork(to_number);
                     matched_blocks.clear();
                 } else {
                     warn!("long fork detected");
